@@ -40,8 +40,14 @@ pub async fn open_db(engine: &str, dir: &str, opts: &Value) -> Result<Database, 
 }
 
 pub async fn run_stmt(db: &Database, sql: &str) -> Value {
+    run_stmt_opt(db, sql, true).await
+}
+
+/// `attach_panics`: drain the global panic log and attach it to an Ok result (single-session runners);
+/// the concurrent engines pass false and collect all panics at the end of the execution.
+pub async fn run_stmt_opt(db: &Database, sql: &str, attach_panics: bool) -> Value {
     let r = std::panic::AssertUnwindSafe(db.run(sql)).catch_unwind().await;
-    let task_panics = take_panics();
+    let task_panics = if attach_panics { take_panics() } else { vec![] };
     match r {
         Ok(Ok(chunks)) => {
             let mut v = chunks_json(&chunks);
@@ -194,7 +200,8 @@ pub fn main(_args: &[String]) -> i32 {
                 return 2;
             }
         };
-        let out = run_script(&script);
+        let seed = script.get("_seed").and_then(|v| v.as_u64()).unwrap_or(0);
+        let out = on_fresh_thread(seed, move || run_script(&script));
         let mut o = stdout.lock();
         let _ = writeln!(o, "{}", out);
         let _ = o.flush();
